@@ -501,6 +501,37 @@ def r12_7(ctx):
                 norm = re.sub(r' < (\d+)\)', lambda m: ' <= %d)' % (int(m.group(1)) - 1), norm)
                 sites.append((n, norm))
     ctx.require(len(sites) >= 3 or ctx.fixture, 'only %d required-strings guards found' % len(sites))
+    # a loop with a body (`for <q> of <set> : ( body )`, `for <q> i in .. : ( body )`) never
+    # raises the pre-filter: its body can hold for a string that did not match (`# == 0`,
+    # `not $`), so the rule must be evaluated even when none of its strings matched
+    n_loops = 0
+    for labels, stmts in groups:
+        nodes = list(cu.group_nodes(f, stmts))
+        lines = [x.get('l') for x in nodes if x.get('l') and f.nfile(x).endswith('grammar.y')]
+        act = None
+        for a in actions:
+            if lines and a.start_line <= min(lines) <= a.end_line:
+                act = a
+        if act is None or '_FOR_' not in act.symbols:
+            continue
+        stores = []
+        for x in nodes:
+            if x['k'] == 'bin' and x['op'] == '=':
+                l = cu.strip_casts(f, f.kid(x, 0))
+                if l is not None and l['k'] == 'member' and l['fld'] == 'count' and \
+                        'required_strings' in f.show(l) and 'yyval' in f.show(l):
+                    stores.append(x)
+        if not stores:
+            continue
+        n_loops += 1
+        bad = [x for x in stores if cu.const_of(cu.strip_casts(f, f.kid(x, 1))) != 0]
+        ctx.ob('R12.7', 'for-loop-action@%s:never-requires-strings' % '-'.join(
+            str(s_) for s_ in act.symbols[:4]), not bad, f.loc(bad[0] if bad else stores[0]),
+               'a loop with a body leaves required_strings.count at 0' if not bad else
+               'the action of a loop with a body sets required_strings.count to something other than 0: '
+               'a rule whose loop body holds without any match (`for all of them : ( # < 3 )`) is '
+               'skipped when none of its strings matched')
+    ctx.require(n_loops >= 1 or ctx.fixture, 'no for-loop action storing required_strings.count found')
     counts = {}
     for n, norm in sites:
         counts[norm] = counts.get(norm, 0) + 1
